@@ -459,7 +459,14 @@ class Sym:
         if k == "Let":
             return ("let", pat_key(n["pat"]), s(n["init"]), tuple(pat_names(n["pat"])))
         if k == "Closure":
-            return ("closure", tuple((p.get("name") or (pat_names(p) + ["_"])[0]) for p in n.get("params", [])), s(n["body"]))
+            def pname(p):
+                p0 = p
+                while p0.get("k") == "PRef":
+                    p0 = p0["pat"]
+                if p0.get("k") == "PTuple" and p0.get("pats") and all(x.get("k") == "PBind" and not x.get("sub") for x in p0["pats"]):
+                    return tuple(x["name"] for x in p0["pats"])       # `|(a, b)|`: the components of the one tuple argument
+                return p.get("name") or (pat_names(p) + ["_"])[0]
+            return ("closure", tuple(pname(p) for p in n.get("params", [])), s(n["body"]))
         if k == "Block":
             if n.get("expr") is not None and all(x.get("k") == "SLet" for x in n.get("stmts") or ()):
                 return s(n["expr"])
@@ -817,7 +824,8 @@ def subst(t, m):
         return m[t]
     if t[:1] == ("closure",) and len(t) == 3 and isinstance(t[1], tuple):
         # the closure's own parameters shadow outer names inside its body
-        inner = {k: v for k, v in m.items() if not (isinstance(k, tuple) and len(k) == 2 and k[0] == "var" and k[1] in t[1])}
+        bound = {x for p_ in t[1] for x in (p_ if isinstance(p_, tuple) else (p_,))}
+        inner = {k: v for k, v in m.items() if not (isinstance(k, tuple) and len(k) == 2 and k[0] == "var" and k[1] in bound)}
         return ("closure", t[1], subst(t[2], inner) if inner else t[2])
     return tuple(subst(x, m) if isinstance(x, tuple) else x for x in t)
 
@@ -1497,15 +1505,23 @@ def fold(t, assume, discr=None, helpers=None, evalcalls=None):
         if h == "call":
             args = tuple(f(x) for x in t[2])
             if isinstance(t[1], tuple) and len(t[1]) == 2 and t[1][0] == "?" and isinstance(t[1][1], tuple) and t[1][1][:1] == ("closure",) \
-                    and len(t[1][1][1]) == len(args):
+                    and closure_bindings(t[1][1][1], args) is not None:
                 # call of a local closure: beta-reduce
-                return f(subst(t[1][1][2], {("var", nm): x for nm, x in zip(t[1][1][1], args)}))
+                return f(subst(t[1][1][2], closure_bindings(t[1][1][1], args)))
             if helpers and isinstance(t[1], str) and t[1] in helpers and len(args) == 1:
                 pname, body = helpers[t[1]]
                 r_ = f(subst(body, {("var", pname): args[0]}))
                 if r_[0] in ("lit", "variant"):
                     return r_       # the helper's table decides under the current assumptions; otherwise keep the call
             ck = _callee_key(t[1])
+            if ck.endswith("bool>::then_some") and len(args) == 2 and args[0][0] == "lit" and isinstance(args[0][1], bool):
+                return ("ctor", "std::prelude::v1::Some", (args[1],)) if args[0][1] else ("variant", "std::prelude::v1::None")
+            if ck.endswith("Iterator::collect") and len(args) == 1 and args[0][:1] == ("iter",) and \
+                    all(x[0] == "lit" and isinstance(x[1], str) and len(x[1]) == 1 for x in args[0][1:]):
+                return ("str",) + tuple(("ch", x) for x in args[0][1:])       # characters collected into a String
+            if ck.endswith("String::is_empty") and len(args) == 1 and args[0][:1] == ("str",) and \
+                    all(p_[0] in ("ch", "s") and p_[1][0] == "lit" for p_ in args[0][1:]):
+                return ("lit", all(p_[0] == "s" and p_[1][1] == "" for p_ in args[0][1:]))
             if ck.endswith("OnceCell::<T>::get_or_init") and len(args) == 2 and isinstance(args[1], tuple) and args[1][:1] == ("closure",) \
                     and not args[1][1]:
                 return f(args[1][2])      # a lazily computed value is the value of its initialiser
@@ -1516,8 +1532,8 @@ def fold(t, assume, discr=None, helpers=None, evalcalls=None):
             # finite iterators over literal arrays: [a, b].into_iter().map/filter_map/filter(..).any/all(..)
             if isinstance(t[1], str) and args:
                 def app_(clo, *xs):
-                    if isinstance(clo, tuple) and clo and clo[0] == "closure" and len(clo[1]) == len(xs):
-                        return f(subst(clo[2], {("var", nm): x for nm, x in zip(clo[1], xs)}))
+                    if isinstance(clo, tuple) and clo and clo[0] == "closure" and closure_bindings(clo[1], xs) is not None:
+                        return f(subst(clo[2], closure_bindings(clo[1], xs)))
                     if isinstance(clo, tuple) and len(clo) == 2 and clo[0] == "def":
                         return f(("call", clo[1], tuple(xs)))
                     return None
@@ -1624,8 +1640,8 @@ def fold(t, assume, discr=None, helpers=None, evalcalls=None):
                     v_ = o[2][0] if some else None
 
                     def app(clo, *xs):
-                        if isinstance(clo, tuple) and clo and clo[0] == "closure" and len(clo[1]) == len(xs):
-                            return f(subst(clo[2], {("var", nm): x for nm, x in zip(clo[1], xs)}))
+                        if isinstance(clo, tuple) and clo and clo[0] == "closure" and closure_bindings(clo[1], xs) is not None:
+                            return f(subst(clo[2], closure_bindings(clo[1], xs)))
                         if isinstance(clo, tuple) and len(clo) == 2 and clo[0] == "def":
                             return f(("call", clo[1], tuple(xs)))       # a function path used as the callback
                         return ("call", "apply", (clo,) + tuple(xs))
@@ -1671,7 +1687,16 @@ def fold(t, assume, discr=None, helpers=None, evalcalls=None):
             return ("ctor", t[1], tuple(f(x) for x in t[2]))
         if h == "struct":
             return ("struct", t[1], tuple((n, f(v)) for n, v in t[2]))
-        if h in ("tup", "arr", "str"):
+        if h == "str":
+            parts = []
+            for x in t[1:]:
+                y = f(x)
+                if isinstance(y, tuple) and y[:1] == ("s",) and isinstance(y[1], tuple) and y[1][:1] == ("str",):
+                    parts.extend(y[1][1:])        # a String built elsewhere appended as a whole: its pieces
+                else:
+                    parts.append(y)
+            return ("str",) + tuple(parts)
+        if h in ("tup", "arr"):
             return (h,) + tuple(f(x) for x in t[1:])
         if h in ("ch", "s"):
             return (h, f(t[1]))
@@ -1728,6 +1753,23 @@ def _find_ret(t):
             if r is not None:
                 return r
     return None
+
+
+def closure_bindings(params, xs):
+    """{("var", name): value} for applying a closure with parameter list `params` (names, or tuples of names for tuple patterns) to
+    arguments xs; None when the shapes do not fit"""
+    if len(params) != len(xs):
+        return None
+    m = {}
+    for p_, x in zip(params, xs):
+        if isinstance(p_, tuple):
+            if not (isinstance(x, tuple) and x[:1] == ("tup",) and len(x) - 1 == len(p_)):
+                return None
+            for nm, c in zip(p_, x[1:]):
+                m[("var", nm)] = c
+        else:
+            m[("var", p_)] = x
+    return m
 
 
 def _decided_tuple(sc):
